@@ -64,6 +64,13 @@ CHECKS = {
    design_ref="DESIGN.md section 3 C04",
    note="Programs of In/Nq nodes only (the property is about the phase lock and the timestamp, firewalls would only add KF1). Dependency reads inside executors are not attributed to a snapshot (only user-level values are judged).",
    engine="E2 single-thread scheduler"),
+ "C06": dict(
+   technique="property-based testing: generated small digraph programs with guarded cycle edges x histories of guard-flipping edits and query rounds (sequential or concurrent roots under the tape scheduler); oracle = validity predicate over values + executor log, idle-runtime and hook-count progress oracles",
+   category="exploration",
+   text="Programs with an acyclic base, 2..6 nodes with declared cycle defaults that read anything including themselves through edges guarded by pure-input conditions, and observers. Every round queries every node (generated order; 1..4 concurrent tasks scheduled by the tape + hooks). Termination: the paused-clock idle-runtime oracle (deadlock) and a deterministic hook-count budget (livelock). Values: a node unwound by the cycle signal evaluates to its declared default and lies on a cycle of the read graph under the committed inputs; every other node equals its expression over the values the engine reports for its dependencies; every cycle contains a defaulted node; edits that create/remove cycles are followed by full re-queries.",
+   design_ref="DESIGN.md section 3 C06, section 7 (KF2, KF3)",
+   note="Validity predicate, not one expected answer (which member breaks a cycle depends on who enters first). KF2 (firewall as a cycle member: livelock) excluded by construction: firewalls stay off every statically possible cycle; KF3 (stale default after the cycle is gone) tolerated only for defaults assigned in an earlier round, counted in evidence. InMemoryStorageEngine only.",
+   engine="E2 single-thread scheduler"),
 }
 
 NOT_YET = {
